@@ -34,8 +34,8 @@ class CombineTap:
         tap = self
         orig_fn = self.orig.__func__
 
-        def wrapped(log_time_lts, g_lts, log_time_sts, g_sts):
-            r = orig_fn(log_time_lts, g_lts, log_time_sts, g_sts)
+        def wrapped(log_time_lts, g_lts, log_time_sts, g_sts, *a_, **kw_):
+            r = orig_fn(log_time_lts, g_lts, log_time_sts, g_sts, *a_, **kw_)
             tap.hits += 1
             msg = judge_combined(r, log_time_lts, g_lts, log_time_sts, g_sts)
             tap.kept_counts.add(len(r.x) - len(log_time_lts))
